@@ -46,8 +46,15 @@ FromBits(F(_,_), b, i, acc) == IF i = 8 THEN acc ELSE FromBits(F, b, i+1, acc + 
 Affine(b)    == FromBits(AffBit, b, 0, 0)
 InvAffine(b) == FromBits(InvAffBit, b, 0, 0)
 
-SBox    == LET F(x) == Affine(GInv(x))    IN BuildW(F, 0, 256, <<>>)
-InvSBox == LET F(x) == GInv(InvAffine(x)) IN BuildW(F, 0, 256, <<>>)
+\* <<F(lo), ..., F(lo+n-1)>> by halving.  Recursion depth 8 for 256 entries: TLC evaluates zero-arity
+\* constants once at start-up on the JVM main thread, whose stack JAVA_TOOL_OPTIONS=-Xss does not
+\* enlarge; a 256-deep BuildW overflows there, the error is swallowed and the table is then silently
+\* re-evaluated at every use.
+RECURSIVE Tab(_,_,_)
+Tab(F(_), lo, n) == IF n = 1 THEN <<F(lo)>>
+                    ELSE LET h == n \div 2 IN Tab(F, lo, h) \o Tab(F, lo + h, n - h)
+SBox    == LET F(x) == Affine(GInv(x))    IN Tab(F, 0, 256)
+InvSBox == LET F(x) == GInv(InvAffine(x)) IN Tab(F, 0, 256)
 
 \* ---- round transformations -------------------------------------------------
 SubBytes(s)    == LET F(k) == SBox[s[k+1] + 1]    IN BuildW(F, 0, 16, <<>>)
